@@ -73,6 +73,10 @@ def call(ev: dict) -> dict:
             # presentation of the same question (rotated with the array layout): negative entries, huge entries
             relabel = {"default": (1, 0), "swapped": (1, -2), "strided": (10 ** 9 + 7, -3), "grown": (65536, 0)}[bind.get_layout()]
             A, B = A * relabel[0] + relabel[1], B * relabel[0] + relabel[1]
+            if relabel == (1, 0) and A.size and B.size and min(A.min(), B.min()) >= 0 and max(A.max(), B.max()) < 128:
+                # small non-negative entries: the element types of the two row matrices are a presentation as well
+                # (positions in the other matrix have nothing to do with the value range of the entries)
+                A, B = A.astype(np.int16), B.astype(np.uint8)
             A, B = bind.lay(A), bind.lay(B)
             if op == "ismember":
                 m, loc = u.tt_ismember_rows(A, B)
